@@ -234,3 +234,12 @@ func (n *Node) VerifLockCore(f func()) {
 	defer n.coreLock.Unlock()
 	f()
 }
+
+// VerifRunBabbleOnce does what Run does up to and including one call of the
+// babbling loop (control timer, background work, babble) and returns when
+// that loop returns, i.e. when the node suspended itself or was shut down.
+func (n *Node) VerifRunBabbleOnce(gossip bool) {
+	go n.controlTimer.run(n.conf.HeartbeatTimeout)
+	go n.doBackgroundWork()
+	n.babble(gossip)
+}
